@@ -125,7 +125,7 @@ func runC17(c *Ctx) {
 		}
 		return false
 	}
-	for _, b := range send.Blocks {
+	for _, b := range blocksDeep(send) {
 		for _, in := range b.Instrs {
 			if isDel(in) {
 				nRel++
@@ -147,7 +147,7 @@ func runC17(c *Ctx) {
 	// ---- R9 select shape
 	{
 		var sel *ssa.Select
-		for _, b := range send.Blocks {
+		for _, b := range blocksDeep(send) {
 			for _, in := range b.Instrs {
 				if s, ok := in.(*ssa.Select); ok {
 					sel = s
@@ -186,7 +186,7 @@ func runC17(c *Ctx) {
 		nm := c.Anchor("pkg/p2p.newMessageProtocol")
 		if nm != nil {
 			okT := false
-			for _, b := range nm.Blocks {
+			for _, b := range blocksDeep(nm) {
 				for _, in := range b.Instrs {
 					if st, isSt := in.(*ssa.Store); isSt {
 						if fa, isFA := st.Addr.(*ssa.FieldAddr); isFA {
@@ -291,7 +291,7 @@ func runC17(c *Ctx) {
 		}
 		// newResponseMessage stores param 0 into ID
 		okID := false
-		for _, b := range newResp.Blocks {
+		for _, b := range blocksDeep(newResp) {
 			for _, in := range b.Instrs {
 				if st, isSt := in.(*ssa.Store); isSt {
 					if fa, isFA := st.Addr.(*ssa.FieldAddr); isFA {
@@ -307,7 +307,7 @@ func runC17(c *Ctx) {
 		// receiver: lookup key is decoded response's ID
 		n := 0
 		rf := factsOf(onResp)
-		for _, b := range onResp.Blocks {
+		for _, b := range blocksDeep(onResp) {
 			for _, in := range b.Instrs {
 				lk, isL := in.(*ssa.Lookup)
 				if !isL || !rf.Term(lk.X).Any(IsField(mp, "resCh").F) {
